@@ -30,7 +30,15 @@ def dataclass_to_dict(obj: Any) -> Any:
 
 def format_colang_parsing_error_message(exception, colang_content):
     """Improves readability of Colang error messages."""
-    line = colang_content.splitlines()[exception.line - 1]
+    line_number = getattr(exception, "line", None)
+    lines = colang_content.splitlines()
+    if not isinstance(line_number, int) or not 1 <= line_number <= len(lines):
+        # Not all exceptions carry (valid) position information.
+        return f"{exception}"
+    line = lines[line_number - 1]
     # NOTE: for Colang 1.0 parsing exceptions, there is no "column" attribute.
-    marker = " " * (getattr(exception, "column", 1) - 1) + "^"
+    column = getattr(exception, "column", 1)
+    if not isinstance(column, int) or column < 1:
+        column = 1
+    marker = " " * (column - 1) + "^"
     return f"{exception}:\n{line}\n{marker}"
